@@ -42,70 +42,85 @@ def run(tier, corrupt=False):
                 if q["kind"] == "struct" and q not in sel and f'"{q["name"]}' in json.dumps(p["code"]):
                     sel.append(q)
         nf = 5 if tier == "quick" else 8
-        r1, s1 = collect(tier, tmp, sel, types, "ser", rich=False, nfuel=nf, invariants=("SerLeavesModeAsFound", "PNoSilentFailure"),
-                         properties=("PModeRestored",), tag="sf")
-        r2, s2 = collect(tier, tmp, sel if tier == "thorough" else sel[::2], types, "hostile", rich=False, ndfuel=nf - 1, light=True,
-                         invariants=("DeLeavesModeAsFound", "PInBounds"), properties=("PDModeRestored",), tag="df")
-        r3, s3 = collect(tier, tmp, sel, types, "bytes", rich=False, maxbytes=2, ndfuel=3, invariants=("DeLeavesModeAsFound",), properties=("PDModeRestored",), tag="bf")
-        require(s1["action_counts"]["SerUnwind"] > 0, "vacuity: no serializer behaviour failed part-way")
-        require(s2["action_counts"]["DeUnwind"] + s3["action_counts"]["DeUnwind"] > 0, "vacuity: no deserializer behaviour failed part-way")
-        sers = [r for r in r1 if r["kind"] == "ser"]
-        # a faulted serialization has no finished object; replay it with the object of the unfaulted twin (same program, same choices up to the fault)
-        des = [r for r in r2 + r3 if r["kind"] == "de" and r["status"] != "bound"]
-        with scratch("c15w-") as wt:
-            src, accepted, rejected = prepare_world(wt, progs, types)
-            acc = {p["name"] for p in accepted}
-            ok_objs = {}
-            for r in sers:
-                if r["exc"] == "" and r["prog"] in acc:
-                    ok_objs.setdefault(r["prog"], []).append(r["obj"])
-            cases, meta = [], []
-            model_modes = {}
-            for r in sers:
-                if r["exc"] == "" and r["fuel"] == -1:
-                    model_modes[(r["prog"], r["san0"], json.dumps(r["obj"], sort_keys=True))] = r["modes"]
-            for prog, objs in ok_objs.items():
-                for oi, obj in enumerate(objs):
-                    for san0 in (False, True):
-                        for fuel in [-1] + list(range(nf)):
-                            cases.append({"kind": "ser", "prog": prog, "san0": san0, "fuel": fuel, "obj": obj, "salt": oi, "direct_nested": fuel == -1})
-                            meta.append(("ser", prog, san0, fuel, obj, model_modes.get((prog, san0, json.dumps(obj, sort_keys=True))) if fuel == -1 else None))
-            for r in des:
-                if r["prog"] in acc:
-                    cases.append({"kind": "de", "prog": r["prog"], "data": r["data"], "ch0": r["ch0"], "dfuel": r["dfuel"]})
-                    meta.append(("de", r["prog"], r["ch0"], r["dfuel"], r["data"], r["modes"]))
-            imp, results = run_drivers_parallel(src, wt, accepted, types, cases)
-            if imp:
-                v.violation("generated package not importable", imp.strip().splitlines()[-1], {"trace": imp})
-                results = []
-            n = nfault = 0
-            for m, o in zip(meta, results):
-                n += 1
-                if "harness_error" in o:
-                    raise MachineryError(o["harness_error"])
-                kind, prog, mode0, fuel, payload, mmodes = m
-                if o.get("ctor_exc"):
-                    continue
-                if o.get("exc") == "Fault":
-                    nfault += 1
-                calls = o["calls"]
-                if corrupt and n == 40 and calls:
-                    calls = [list(calls[0][:3]) + [not calls[0][2], False]] + calls[1:]
-                end = o["san_end"] if kind == "ser" else o["ch_end"]
-                bad = mode_violations(calls)
-                if end is not None and end != mode0:
-                    bad.append({"cls": prog, "call": "top-level " + ("serialize" if kind == "ser" else "deserialize"), "entry": mode0, "exit": end, "raised": bool(o.get("exc"))})
-                # "never read or sanitised as chunked unless it says so, and vice versa": the mode in force at every primitive call
-                if mmodes is not None and not o.get("exc") == "TimeoutError" and o.get("modes") is not None and o["modes"] != mmodes:
-                    k_ = next((i for i, (a, b_) in enumerate(zip(o["modes"], mmodes)) if a != b_), min(len(o["modes"]), len(mmodes)))
-                    key = f"{prog} mode at primitive call #{k_ + 1} entry={mode0} fault_at={fuel} input={short(payload, 160)}"
-                    v.violation(key, f"primitive {'writer' if kind == 'ser' else 'reader'} call #{k_ + 1} ran with mode {o['modes'][k_] if k_ < len(o['modes']) else 'n/a'}, "
-                                     f"the declaration gives {mmodes[k_] if k_ < len(mmodes) else 'n/a'} (observed trace {o['modes'][:12]}, model {mmodes[:12]})",
-                                {"kind": kind, "prog": prog, "mode0": mode0, "fuel": fuel, "input": payload, "observed_modes": o["modes"], "model_modes": mmodes})
-                for b in bad[:2]:
-                    key = f"{prog} {b['cls']}.{b['call']} entry={b['entry']} exit={b['exit']} raised={b['raised']} fault_at={fuel} input={short(payload, 160)}"
-                    v.violation(key, f"{b['cls']}.{b['call']} was entered with mode {b['entry']} and left it {b['exit']} "
-                                     f"({'raising ' + o.get('exc', '') if b['raised'] else 'returning'})", {"kind": kind, "prog": prog, "mode0": mode0, "fuel": fuel, "input": payload, "calls": calls})
+        from .c02 import merge_stats, program_groups
+        all_sel = sel
+        groups = program_groups(all_sel, tier)          # thorough: judged group by group (memory)
+        tot = {"s1": None, "s2": None, "s3": None, "n": 0, "nfault": 0, "first_meta": None, "last_meta": None}
+        for gi, sel in enumerate(groups):
+            r1, s1 = collect(tier, tmp, sel, types, "ser", rich=False, nfuel=nf, invariants=("SerLeavesModeAsFound", "PNoSilentFailure"),
+                             properties=("PModeRestored",), tag="sf")
+            r2, s2 = collect(tier, tmp, sel if tier == "thorough" else sel[::2], types, "hostile", rich=False, ndfuel=nf - 1, light=True,
+                             invariants=("DeLeavesModeAsFound", "PInBounds"), properties=("PDModeRestored",), tag="df")
+            r3, s3 = collect(tier, tmp, sel, types, "bytes", rich=False, maxbytes=2, ndfuel=3, invariants=("DeLeavesModeAsFound",), properties=("PDModeRestored",), tag="bf")
+            require(gi > 0 or s1["action_counts"]["SerUnwind"] > 0, "vacuity: no serializer behaviour failed part-way")
+            require(gi > 0 or s2["action_counts"]["DeUnwind"] + s3["action_counts"]["DeUnwind"] > 0, "vacuity: no deserializer behaviour failed part-way")
+            sers = [r for r in r1 if r["kind"] == "ser"]
+            # a faulted serialization has no finished object; replay it with the object of the unfaulted twin (same program, same choices up to the fault)
+            des = [r for r in r2 + r3 if r["kind"] == "de" and r["status"] != "bound"]
+            with scratch("c15w-") as wt:
+                src, accepted, rejected = prepare_world(wt, sel, types)
+                acc = {p["name"] for p in accepted}
+                ok_objs = {}
+                for r in sers:
+                    if r["exc"] == "" and r["prog"] in acc:
+                        ok_objs.setdefault(r["prog"], []).append(r["obj"])
+                cases, meta = [], []
+                model_modes = {}
+                for r in sers:
+                    if r["exc"] == "" and r["fuel"] == -1:
+                        model_modes[(r["prog"], r["san0"], json.dumps(r["obj"], sort_keys=True))] = r["modes"]
+                for prog, objs in ok_objs.items():
+                    for oi, obj in enumerate(objs):
+                        for san0 in (False, True):
+                            for fuel in [-1] + list(range(nf)):
+                                cases.append({"kind": "ser", "prog": prog, "san0": san0, "fuel": fuel, "obj": obj, "salt": oi, "direct_nested": fuel == -1})
+                                meta.append(("ser", prog, san0, fuel, obj, model_modes.get((prog, san0, json.dumps(obj, sort_keys=True))) if fuel == -1 else None))
+                for r in des:
+                    if r["prog"] in acc:
+                        cases.append({"kind": "de", "prog": r["prog"], "data": r["data"], "ch0": r["ch0"], "dfuel": r["dfuel"]})
+                        meta.append(("de", r["prog"], r["ch0"], r["dfuel"], r["data"], r["modes"]))
+                imp, results = run_drivers_parallel(src, wt, accepted, types, cases)
+                if imp:
+                    v.violation("generated package not importable", imp.strip().splitlines()[-1], {"trace": imp})
+                    results = []
+                n = nfault = 0
+                for m, o in zip(meta, results):
+                    n += 1
+                    if "harness_error" in o:
+                        raise MachineryError(o["harness_error"])
+                    kind, prog, mode0, fuel, payload, mmodes = m
+                    if o.get("ctor_exc"):
+                        continue
+                    if o.get("exc") == "Fault":
+                        nfault += 1
+                    calls = o["calls"]
+                    if corrupt and n == 40 and calls:
+                        calls = [list(calls[0][:3]) + [not calls[0][2], False]] + calls[1:]
+                    end = o["san_end"] if kind == "ser" else o["ch_end"]
+                    bad = mode_violations(calls)
+                    if end is not None and end != mode0:
+                        bad.append({"cls": prog, "call": "top-level " + ("serialize" if kind == "ser" else "deserialize"), "entry": mode0, "exit": end, "raised": bool(o.get("exc"))})
+                    # "never read or sanitised as chunked unless it says so, and vice versa": the mode in force at every primitive call
+                    if mmodes is not None and not o.get("exc") == "TimeoutError" and o.get("modes") is not None and o["modes"] != mmodes:
+                        k_ = next((i for i, (a, b_) in enumerate(zip(o["modes"], mmodes)) if a != b_), min(len(o["modes"]), len(mmodes)))
+                        key = f"{prog} mode at primitive call #{k_ + 1} entry={mode0} fault_at={fuel} input={short(payload, 160)}"
+                        v.violation(key, f"primitive {'writer' if kind == 'ser' else 'reader'} call #{k_ + 1} ran with mode {o['modes'][k_] if k_ < len(o['modes']) else 'n/a'}, "
+                                         f"the declaration gives {mmodes[k_] if k_ < len(mmodes) else 'n/a'} (observed trace {o['modes'][:12]}, model {mmodes[:12]})",
+                                    {"kind": kind, "prog": prog, "mode0": mode0, "fuel": fuel, "input": payload, "observed_modes": o["modes"], "model_modes": mmodes})
+                    for b in bad[:2]:
+                        key = f"{prog} {b['cls']}.{b['call']} entry={b['entry']} exit={b['exit']} raised={b['raised']} fault_at={fuel} input={short(payload, 160)}"
+                        v.violation(key, f"{b['cls']}.{b['call']} was entered with mode {b['entry']} and left it {b['exit']} "
+                                         f"({'raising ' + o.get('exc', '') if b['raised'] else 'returning'})", {"kind": kind, "prog": prog, "mode0": mode0, "fuel": fuel, "input": payload, "calls": calls})
+            tot["n"] += n
+            tot["nfault"] += nfault
+            for k_, s_ in (("s1", s1), ("s2", s2), ("s3", s3)):
+                tot[k_] = s_ if tot[k_] is None else merge_stats(tot[k_], s_)
+            if tot["first_meta"] is None:
+                tot["first_meta"] = meta[0]
+            tot["last_meta"] = meta[-1]
+            del r1, r2, r3, sers, des, cases, results
+        sel, s1, s2, s3, n, nfault = all_sel, tot["s1"], tot["s2"], tot["s3"], tot["n"], tot["nfault"]
+        meta = [tot["first_meta"], tot["last_meta"]]
     cov = {"states": s1["states"] + s2["states"] + s3["states"], "transitions": s1["transitions"] + s2["transitions"] + s3["transitions"],
            "model_runs": [{"mode": "ser+faults", **s1}, {"mode": "hostile+faults", **s2}, {"mode": "bytes+faults", **s3}],
            "traces_validated_against_impl": n, "executions_that_hit_the_injected_fault": nfault, "programs": len(sel), "program_names": [p["name"] for p in sel],
